@@ -2696,6 +2696,21 @@ class op(object):
         inequalities = self.inequalities()
         equalities = self.equalities()
 
+        def basenames(objs):
+            # The labels are built from the names (or the positions) of
+            # the variables and constraints, truncated to eight 
+            # characters.  If the truncation makes two labels equal, 
+            # the positions are used for all of them.
+            names = [ o.name if o.name else str(k) for k,o in 
+                enumerate(objs) ]
+            labels = [ nm[:(7-len(str(i)))] + '_' + str(i) for nm,o in 
+                zip(names,objs) for i in range(len(o)) ]
+            if len(set(labels)) < len(labels):
+                names = [ str(k) for k in range(len(objs)) ]
+            return names
+        cnames = basenames(constraints)
+        vnames = basenames(variables)
+
         f = open(filename,'w')
         f.write('NAME')
         if self.name: f.write(10*' ' + self.name[:8].rjust(8))
@@ -2710,11 +2725,7 @@ class op(object):
                     f.write(' L  ')
                 else:
                     f.write(' E  ')
-                if c.name:
-                    name = c.name 
-                else:
-                    name = str(k) 
-                name = name[:(7-len(str(i)))] + '_' + str(i)
+                name = cnames[k][:(7-len(str(i)))] + '_' + str(i)
                 f.write(name.rjust(8))
                 f.write('\n')
 
@@ -2722,11 +2733,7 @@ class op(object):
         for k in range(len(variables)):
             v = variables[k]
             for i in range(len(v)):
-                if v.name: 
-                    varname = v.name
-                else:
-                    varname = str(k)
-                varname = varname[:(7-len(str(i)))] + '_' + str(i)
+                varname = vnames[k][:(7-len(str(i)))] + '_' + str(i)
                 pos = f.tell()
 
                 if v in self.objective._linear._coeff:
@@ -2738,10 +2745,7 @@ class op(object):
 
                 for j in range(len(constraints)):
                      c = constraints[j]
-                     if c.name:
-                         cname = c.name 
-                     else:
-                         cname = str(j) 
+                     cname = cnames[j]
                      if v in c._f._linear._coeff:
                          cf = c._f._linear._coeff[v]
                          if cf.size == (len(c),len(v)):
@@ -2781,10 +2785,7 @@ class op(object):
         f.write('RHS\n') 
         for j in range(len(constraints)):
             c = constraints[j]
-            if c.name:
-                cname = c.name 
-            else:
-                cname = str(j) 
+            cname = cnames[j]
             const = -c._f._constant
             for l in range(len(c)):
                  conname = cname[:(7-len(str(l)))] + '_' + str(l)
@@ -2800,11 +2801,7 @@ class op(object):
         for k in range(len(variables)):
             v = variables[k]
             for i in range(len(v)):
-                if v.name:
-                    varname = v.name
-                else:
-                    varname = str(k)
-                varname = varname[:(7-len(str(i)))] + '_' + str(i)
+                varname = vnames[k][:(7-len(str(i)))] + '_' + str(i)
                 f.write(' FR ' + 10*' ' + varname[:8].rjust(8) + '\n')
 
         f.write('ENDATA\n')
